@@ -31,3 +31,65 @@ Theorem C05_busy_poll_total : forall (A : Type) (ops : app_ops A) (f : fdl) (now
   exists f', poll ops f now (mkPhyIn true rxb) apps = Ok (f', mkPhyOut None rxb, apps, []).
 Proof. exact poll_busy_total. Qed.
 Print Assumptions C05_busy_poll_total.
+
+(* ------------------------------------------------------------------------------------------ *)
+(* The full statement: poll is total under the representation invariant `Rep` of
+   Proofs/C05Proofs.v, and `Rep` is inductive over all histories of polls and implemented API calls.
+
+   `Rep n f` (n = number of applications) says: the parameters are ones the builder can produce; the
+   LAS has 128 entries, r_ts = TS and NS / PS are the cyclic neighbours of TS in the LAS (hence
+   0 <= NS < 128); connectivity is never Passive, an Offline station is in state Offline and every
+   other state is entered only while Online; the state is never PassiveIdle; a GAP cursor lies in
+   [0, HSA), a GAP rotation counter in [0, gap_wait + 1]; collision counters are 0 or 1; a pending status
+   requester is a 7-bit address; `AwaitStatusResponse a` / `ClaimToken (ScanAwaitResponse a)` agree with
+   the GAP cursor (= a, a <> TS); token times are in [0, 2^62), last_bus_activity in
+   [0, 2^62 + 2^25 * 10^6]; `next_application` indexes the application list.
+   `apps_total` is the applications' own totality (every callback returns; a telegram handed to the
+   PHY has at most 65536 bytes).  `time_ok now` is 0 <= now < 2^62; `all_bytes` says the receive buffer
+   holds bytes (0..255).  set_passive (a documented todo!()) is not part of the histories. *)
+From PB Require Import Params C05Proofs.
+
+(* Rep holds for a new station and after set_online / set_offline. *)
+Theorem C05_rep_init : forall (k : nat) (p : params), builder_valid p ->
+  exists f0, fdl_new p = Ok f0 /\ Rep k f0 /\
+    (exists f1, set_online f0 = Ok f1 /\ Rep k f1) /\ (exists f2, set_offline f0 = Ok f2 /\ Rep k f2).
+Proof. exact rep_init. Qed.
+Print Assumptions C05_rep_init.
+
+Theorem C05_rep_api : forall (k : nat) (f : fdl), Rep k f ->
+  (exists f1, set_online f = Ok f1 /\ Rep k f1) /\ (exists f2, set_offline f = Ok f2 /\ Rep k f2).
+Proof. exact rep_api. Qed.
+Print Assumptions C05_rep_api.
+
+(* One poll from ANY state satisfying Rep, with any PHY answer (busy or not, any received bytes), any
+   time in range and any list of total applications: the result is Ok - no panic site is reached
+   (assertions, unreachable!, unwrap, index, integer and time arithmetic, second transmission) and no
+   loop bound is exhausted - and Rep holds again.  The model's loop bounds are part of `poll`:
+   the receive loop has fuel |rx| + 1 (`receive_all_fuel`), the application loop makes at most
+   |apps| iterations (structural), nothing else loops. *)
+Theorem C05_rep_step : forall (A : Type) (ops : app_ops A), apps_total A ops ->
+  forall (f : fdl) (now : Z) (pin : phy_in) (apps : list A),
+  Rep (length apps) f -> time_ok now -> all_bytes (rx pin) ->
+  exists f' o apps' c, poll ops f now pin apps = Ok (f', o, apps', c) /\
+                       Rep (length apps) f' /\ length apps' = length apps.
+Proof. exact poll_rep_step. Qed.
+Print Assumptions C05_rep_step.
+
+Theorem C05_fuel : forall rxb : bytes, receive_all_fuel rxb = S (length rxb).
+Proof. exact fuel_is_rx_plus_one. Qed.
+Print Assumptions C05_fuel.
+
+(* All histories: a new station with builder-valid parameters, then any sequence of polls (any times
+   in range - not even monotone -, any PHY answers, any received byte lists) and set_online /
+   set_offline calls, with any number (including zero) of total applications: every call returns Ok. *)
+Theorem C05_no_panic : forall (A : Type) (ops : app_ops A), apps_total A ops ->
+  forall (p : params) (apps : list A) (evs : list api_ev), builder_valid p -> Forall ev_ok evs ->
+  exists f0 f' apps', fdl_new p = Ok f0 /\ run_events A ops f0 apps evs = Ok (f', apps') /\ Rep (length apps) f'.
+Proof. exact no_panic. Qed.
+Print Assumptions C05_no_panic.
+
+(* non-vacuity: the unit application is total; the default parameters are builder-valid *)
+Example C05_unit_app_total : apps_total unit unit_app_ops.
+Proof. exact unit_apps_total. Qed.
+Example C05_default_params_valid : builder_validb default_params = true.
+Proof. reflexivity. Qed.
